@@ -466,6 +466,8 @@ def run_case(entry, el, case, fresh_el=None, track=False):
     obs['trace'] = list(trace)
     obs['ret_is_input'] = int(any(o is wf1 for o in outs1))
     obs['ret_shares'] = int(any(np.shares_memory(np.asarray(o.electric_field), np.asarray(wf1.electric_field)) for o in outs1))
+    obs['ret_shares_grid'] = int(any(o.electric_field.grid is wf1.electric_field.grid for o in outs1))
+    obs['ret_shares_stokes'] = int(any(o.input_stokes_vector is not None and o.input_stokes_vector is wf1.input_stokes_vector for o in outs1))
     obs['out'] = o1
     obs['in'] = E1_keep
     obs['ins'] = [E1_keep]          # every (input, outputs) pair of this case that the model is asked to reproduce
@@ -1377,6 +1379,12 @@ def run(ctx):
         try:
             term = ir_term(e, el, case['direction'], case['kind'], case['wavelength'])
         except Exception as ex:     # noqa
+            if ctx.violations:
+                # the oracle has already found failing inputs in this run; a defect that rewrites shared
+                # objects (a grid rescaled in place …) can leave later elements with non-finite parameters:
+                # report what was found instead of dying on the wreckage
+                ctx.count('denote-skipped-after-violation')
+                continue
             raise MachineryError('cannot build the IR term of %s: %s: %s' % (e.name, type(ex).__name__, ex))
         if term is not None:
             heavy = len(term) > 200000
@@ -1403,11 +1411,22 @@ def run(ctx):
         label = {k: case[k] for k in ('entry', 'kind', 'direction', 'wavelength')}
         if what == 'effects':
             prog = payload[2]
-            if not ans.startswith('ok safe=1 '):
-                ctx.disagree('C06 effects', {'case': label, 'program': prog, 'model': ans, 'note': 'program not accepted by the checker'})
+            toks = ans.split(' ')
+            if len(toks) != 8 or toks[0] != 'ok':
+                raise MachineryError('unexpected effects answer %r' % ans)
+            if toks[1] != 'safe=1' or toks[5] != 'safeGrid=1' or toks[6] != 'safeStokes=1':
+                ctx.disagree('C06 effects', {'case': label, 'program': prog, 'model': ans,
+                                             'note': 'program not accepted by the checker on all three heaps (field arrays, grid objects, Stokes vectors)'})
                 continue
-            if ans[len('ok safe=1 '):] != effects_line(obs):
+            if ' '.join(toks[2:5]) != effects_line(obs):
                 ctx.disagree('C06 effects', {'case': label, 'program': prog, 'model': ans, 'impl': effects_line(obs)})
+            # aliasing of the attached objects: the model over-approximates ("may point to the input's grid"), so the
+            # comparison is one-sided: a result that really points to the input's grid object must be known to the model;
+            # the Stokes vector of a result is never the input's object (the model copies it on every construction)
+            ctx.count('grid-aliasing %s model=%s observed=%d' % (prog, toks[7][-1], obs['ret_shares_grid']))
+            if (obs['ret_shares_grid'] and toks[7] != 'retSharesGrid=1') or (obs['ret_shares_stokes'] and not obs['ret_is_input']):
+                ctx.disagree('C06 effects', {'case': label, 'program': prog, 'model': ans,
+                                             'impl': 'result points to the input\'s grid object: %d, to its Stokes vector object: %d' % (obs['ret_shares_grid'], obs['ret_shares_stokes'])})
         else:
             e = payload[2]
             toks = ans.split(' ')
